@@ -161,7 +161,14 @@ def ite_sel(idx, elems, default=None):
 def liveness(f):
     """live_before[block][idx]: registers whose value may be needed when execution resumes at that instruction."""
     blocks = f['blocks']
+    defer_regs = set()
+    for b in blocks:
+        for ins in b['instrs']:
+            if ins['op'] == 'Defer':
+                defer_regs |= {a['reg'] for a in ins.get('args', []) if 'reg' in a}
     def uses(ins):
+        if ins['op'] == 'RunDefers':
+            return set(defer_regs)
         return {a['reg'] for a in ins.get('args', []) if 'reg' in a}
     live_in = [set() for _ in blocks]
     changed = True
@@ -505,9 +512,10 @@ class Seg:
                 p.set(m.var('E%d.result' % eid, init=BV(NIL)), BV(NIL))
                 p.set(m.var('E%d.mu' % eid), BV(0))
                 self.setreg(p, fr, reg, ('eptr', eid))
-            elif self.cfg.get('cells'):
-                # a variable captured by reference: write-once cell
-                self.setreg(p, fr, reg, ('cell', '%s.%s' % (fr.fn.split('.')[-1], reg)))
+            elif self.cfg.get('cells') or at.get('elemkind') in ('iface', 'int', 'int64', 'uint32', 'bool'):
+                # a local variable held in memory (captured by a closure, or a named result):
+                # aggregates are write-once and static, scalars live in a per-goroutine state variable
+                self.setreg(p, fr, reg, ('cell', 'T%d.%s.%s' % (p.tid, fr.fn.split('.')[-1], reg) if not self.cfg.get('cells') else '%s.%s' % (fr.fn.split('.')[-1], reg)))
             else:
                 raise Unsupported('Alloc of %s' % at.get('elem'))
             nxt(); return
@@ -531,9 +539,12 @@ class Seg:
                 return self.recv(p, fr, x, reg, at.get('commaok'))
             if tok == '*' and isinstance(x, tuple) and x and x[0] in ('cell', 'envfield', 'obj'):
                 if x[0] == 'cell':
-                    if x[1] not in self.m.cells:
+                    if x[1] in self.m.cells:
+                        self.setreg(p, fr, reg, self.m.cells[x[1]])
+                    elif ('cell.' + x[1]) in self.m.vars:
+                        self.setreg(p, fr, reg, p.get('cell.' + x[1]))
+                    else:
                         raise Unsupported('read of unset cell ' + x[1])
-                    self.setreg(p, fr, reg, self.m.cells[x[1]])
                 elif x[0] == 'envfield':
                     val = {('cmdptr', 'Process'): ('procptr',), ('timer', 'C'): ('chan', 'timerC')}.get((x[1], x[2]))
                     if val is None:
@@ -560,6 +571,10 @@ class Seg:
             nxt(); return
         if op == 'Store':
             ref, val = v(0), v(1)
+            if isinstance(ref, tuple) and ref and ref[0] == 'cell' and not isinstance(val, (tuple, list)) and not self.cfg.get('cells'):
+                init = BV(NIL) if ins['args'][1].get('type') in ('any', 'interface{}') else None
+                p.set(self.m.var('cell.' + ref[1], init=init), to_bv(val))
+                nxt(); return
             if isinstance(ref, tuple) and ref and ref[0] == 'cell':
                 if ref[1] in self.m.cells and _hashable(self.m.cells[ref[1]]) != _hashable(val) and not (z3.is_expr(val) and z3.is_expr(self.m.cells[ref[1]]) and val.eq(self.m.cells[ref[1]])):
                     raise Unsupported('cell %s assigned two different values' % ref[1])
@@ -700,20 +715,25 @@ class Seg:
             if 'invoke' in at:
                 raise Unsupported('deferred interface method call')
             callee = self.val(p, fr, A[0])
-            dargs = tuple(self.val(p, fr, a) for a in A[1:])
-            if callee[0] != 'func' or has_term(dargs) or (INTRINSICS.get(callee[1]) is None):
+            if callee[0] != 'func' or INTRINSICS.get(callee[1]) is None:
                 raise Unsupported('defer of %r' % (callee,))
-            fr.statics['D!defers'] = tuple(fr.statics.get('D!defers', ())) + ((callee[1], dargs),)
+            # arguments are kept as operands and evaluated when the deferred call runs (the registers stay live)
+            ops = tuple(('reg', a['reg']) if 'reg' in a else ('val', _hashable(self.val(p, fr, a))) for a in A[1:])
+            if any(o[0] == 'val' and has_term(o[1]) for o in ops):
+                raise Unsupported('defer with a symbolic constant argument')
+            fr.statics['D!defers'] = tuple(fr.statics.get('D!defers', ())) + ((callee[1], ops),)
             nxt(); return
         if op == 'RunDefers':
             ds = tuple(fr.statics.get('D!defers', ()))
             if not ds:
                 nxt(); return
-            name, dargs = ds[-1]
+            name, ops = ds[-1]
+            dargs = [self.val(p, fr, {'reg': o[1]}) if o[0] == 'reg' else o[1] for o in ops]
             fr.statics['D!defers'] = ds[:-1]
             idx = fr.idx
-            INTRINSICS[name](self, p, fr, list(dargs), None)
-            fr.idx = idx   # stay on RunDefers until the list is empty
+            INTRINSICS[name](self, p, fr, dargs, None)
+            if p.finished is None:
+                fr.idx = idx   # stay on RunDefers until the list is empty
             return
         if op == 'Go':
             callee = self.val(p, fr, A[0])
@@ -1831,6 +1851,16 @@ def main():
             anyparked = z3.Or(*[z3.And(st['T%d.active' % t], st['T%d.parked' % t]) for t in range(m.nthreads)])
             lw.append(z3.And(st['vW.mu'] == BV(0), anyparked, z3.ULT(st['ghost.woken'], st['vW.todo.len'])))
         rl, ml = check('lost-wakeup', z3.Or(*lw), 'unsat')
+    # (b3) Get never blocks (cache): a goroutine whose call is a Get is enabled in every state until it has finished
+    rg, mg = z3.unsat, None
+    if args.mode == 'cache':
+        gb = []
+        for k in range(K):
+            st = states[k]
+            for t in range(m.nthreads):
+                isget = z3.UGE(m.const('CK_%d' % t, 'bv'), BV(2))
+                gb.append(z3.And(isget, st['T%d.active' % t], z3.Not(st['T%d.done' % t]), z3.Not(info[k]['enabled'][t])))
+        rg, mg = check('get-blocks', z3.Or(*gb), 'unsat')
     # (c) unwinding assertion: after K steps everything has finished
     rc, mc = check('unwinding', z3.And(z3.Not(all_done(states[K])), *live), 'unsat')
     # (d) witness: a complete run exists in which something happened
@@ -1860,7 +1890,7 @@ def main():
 
     status = 'ok'
     violation = None
-    for name, r, mdl in (('safety', ra, ma), ('deadlock', rb, mb), ('lost-wakeup', rl, ml), ('data-race', re, me)):
+    for name, r, mdl in (('safety', ra, ma), ('deadlock', rb, mb), ('lost-wakeup', rl, ml), ('get-blocks', rg, mg), ('data-race', re, me)):
         if r == z3.sat:
             status = 'violation'
             violation = describe(m, states, info, mdl, name, K)
